@@ -157,6 +157,7 @@ func buildTable() *Node {
 			list("ifc-ext", "name", leaf("name", "string"), leaf("v", "string")),
 			leaf("extleaf", "string", ext()),
 			cont("extc", ext(), leaf("e1", "string", ext()), leaflist("e2", "string", ext())),
+			leaflist("extll", "string", ext()),
 		),
 		cont("chc",
 			leaf("ca", "string", member("top", "c1")), leaf("ca2", "string", member("top", "c1")),
@@ -176,7 +177,7 @@ func buildTable() *Node {
 			cont("nest",
 				cont("oi", member("outer", "o1"),
 					leaf("na", "string", member("inner", "n1")),
-					leaf("nb", "string", member("inner", "n2")),
+					leaf("nb", "string", member("inner", "n2")), leaf("nb2", "string", member("inner", "n2")),
 					leaf("oil", "string"),
 				),
 				leaf("o1l", "string", member("outer", "o1")),
@@ -189,6 +190,7 @@ func buildTable() *Node {
 			leaf("lo", "uint32"), leaf("hi", "uint32"), leaf("ilo", "int32"), leaf("ihi", "int32"),
 			leaf("mode", "string"), leaf("modedep", "string"),
 			leaf("defmode", "string", def("on")), leaf("defdep", "string"), leaf("defdep2", "string"),
+			cont("sd", presence(), leaf("mode", "string", def("on")), leaf("en", "boolean"), leaf("other", "string")),
 			list("svc", "name", leaf("name", "string"), leaf("kind", "string"), leaf("note", "string"), leaf("weight", "uint8", def("5")), leaf("dd", "string")),
 			cont("mc", presence(), leaf("musthave", "string"), leaf("opt", "string"), leaf("mcd", "string", def("d"))),
 			list("ref", "name", leaf("name", "string"),
